@@ -45,6 +45,17 @@ def handleWire (st : St) : List String → Option (St × String)
     let (v, r) ← parseVal S rest
     if !r.isEmpty then none else
     some (st, if msgOkB S v then "1" else "0")
+  -- `Message.__eq__` of two values (`msgEq`, BpModel/Eq.lean): EQ <sid> <val> ;; <val>
+  | "EQ" :: sid :: rest =>
+    match st.schema sid with
+    | none => some (st, "ERR no-schema")
+    | some S =>
+      match parseVal S rest with
+      | some (a, ";;" :: rest2) =>
+        match parseVal S rest2 with
+        | some (b, []) => some (st, if msgEq S a b then "1" else "0")
+        | _ => some (st, "ERR bad-second-value")
+      | _ => some (st, "ERR bad-first-value")
   | "LEN" :: sid :: rest => do
     let S ← st.schema sid
     let (v, r) ← parseVal S rest
